@@ -213,19 +213,21 @@ def spec(tier, seed):
         for x in T:
             for y in T:
                 ints = is_int(x) and is_int(y)
-                hard = (op in ("divide", "modulo")) and not ints
+                # measured in a full thorough run: float `/` (validity) 6-9 s per pair, float MOD 120-270 s per pair
+                hard = op == "modulo" and not ints
                 # a second multiplier / remainder circuit in the oracle makes the SAT problem an equivalence check of two
                 # circuits (float *: > 600 s with CaDiCaL, 15 s .. > 600 s with kissat; INTEGER MOD: 440-580 s): the quick
                 # instance asserts validity, tag and the error classes only, the exact variant is a thorough instance
                 second_circuit = (op == "multiply" and not ints) or (op == "modulo" and ints)
                 b.add(var, "vk_c06_%s_%s_%s" % (op, x, y), closure_body(op, x, y, exact=not second_circuit), unwind=2, exhaustive=True,
-                      tier="thorough" if hard else "quick", core=not hard,
-                      cost=200 if hard else (150 if op == "modulo" else 30 if op == "divide" else 8),
+                      tier="thorough" if hard else "quick", core=True,
+                      cost=250 if hard else (150 if op == "modulo" else 30 if op == "divide" else 8),
                       bounds="every valid %s x %s pair (full width)" % (NAME[x], NAME[y]),
                       functions=["rusty_variant::Variant::" + op] + (["rusty_variant::fit::FitToType"] if op in ("divide", "modulo") else []))
                 if second_circuit:
+                    fast = op == "multiply" and (x, y) in (("S", "S"), ("S", "I"), ("I", "S"), ("S", "D"), ("D", "S"))     # 6-8 s with kissat
                     b.add(var, "vk_c06_%s_exact_%s_%s" % (op, x, y), closure_body(op, x, y, exact=True), unwind=2, exhaustive=True,
-                          tier="thorough", core=False, cost=500, solver="kissat" if op == "multiply" else None,
+                          tier="quick" if fast else "thorough", core=fast, cost=20 if fast else 500, solver="kissat" if op == "multiply" else None,
                           bounds="every valid %s x %s pair (full width); exact result / Overflow only if the IEEE product is not finite"
                                  % (NAME[x], NAME[y]),
                           functions=["rusty_variant::Variant::" + op])
@@ -283,9 +285,9 @@ match av.%s() {
     return b.build(
         tier,
         bounds="none on values: every harness instance spans all valid values of its operand types (i16 / i32 / finite f32 / "
-               "finite f64); one instance per (operation, tag pair). quick: 16 casts, + - * negate NOT on all pairs, / and MOD on the "
-               "four INTEGER/LONG pairs, agreement for + - * (all pairs) and MOD (integer pairs); thorough adds float / and MOD "
-               "(non-core: reported as undecided if CBMC does not finish within the cap)",
+               "finite f64); one instance per (operation, tag pair). quick: 16 casts, + - * / negate NOT on all pairs, MOD on the "
+               "four INTEGER/LONG pairs, agreement for + - * (all pairs) and MOD (integer pairs), exact float products for five pairs; thorough adds "
+               "float MOD, the remaining exact products / remainders and the value of the quotient (non-core: undecided at the 1200 s cap)",
         outside="that every route into a variable (FOR counters, parameters, READ, INPUT, VAL) passes through these functions; "
                 "the exact float results of + - * (only finiteness and the tag are asserted)",
         assumptions=["operands are valid values of their tag (the invariant itself): the closure harnesses are the inductive step"],
